@@ -419,6 +419,8 @@ type C17E2ECase struct {
 	Earlier []C17Cfg `json:"earlier,omitempty"`
 	// EarlierSimple[i]: Earlier[i] is given as WithSimpleRetry(MaxRetries) instead of WithRetry
 	EarlierSimple []bool `json:"earlier_simple,omitempty"`
+	// RetryAfter: error statuses carry this Retry-After header (the statement's wait is a function of the configuration alone)
+	RetryAfter string `json:"retry_after,omitempty"`
 }
 
 var c17Bodies = []string{"scripted status", "", "upstream said 500 Internal", "retry in 500 ms", "code 503", "error 429 ", "ok"}
@@ -438,6 +440,7 @@ func genC17E2E(t *rapid.T) C17E2ECase {
 			c.EarlierSimple = append(c.EarlierSimple, rapid.Bool().Draw(t, "earliersimple"))
 		}
 	}
+	c.RetryAfter = rapid.SampledFrom([]string{"", "", "2", "120", "0", "Wed, 21 Oct 2099 07:28:00 GMT", "soon"}).Draw(t, "retryafter")
 	if c.Kind == 1 && rapid.IntRange(0, 3).Draw(t, "streamfail?") == 0 {
 		c.StreamFail = rapid.IntRange(1, 3).Draw(t, "streamfail")
 	}
@@ -487,7 +490,7 @@ func execC17E2E(c C17E2ECase) *Failure {
 		return FakeAction{Kind: "http", Status: st}
 	}
 	// status bodies: wrap the fake to replace the default text
-	sb := &statusBody{f: fake, body: c.Body, failGets: c.StreamFail}
+	sb := &statusBody{f: fake, body: c.Body, failGets: c.StreamFail, retryAfter: c.RetryAfter}
 	br := &Bridge{H: sb}
 	br.Fault = func(r *SeenReq) error {
 		if r.RPC != method {
@@ -556,7 +559,16 @@ func execC17E2E(c C17E2ECase) *Failure {
 			return Failf("C17/validate/out-of-range", "retry options %v then WithSimpleRetry(%d): the client ends up with %+v, outside the documented ranges", c.Earlier, c.Cfg.MaxRetries, *got)
 		}
 	}
-	mcp.VerifSetBackoffObserver(func(d time.Duration) bool { return true })
+	var e2eWaits []time.Duration
+	recordWaits := false
+	mcp.VerifSetBackoffObserver(func(d time.Duration) bool {
+		mu.Lock()
+		if recordWaits {
+			e2eWaits = append(e2eWaits, d)
+		}
+		mu.Unlock()
+		return true
+	})
 	defer mcp.VerifSetBackoffObserver(nil)
 	ctx, cancel := context.WithTimeout(context.Background(), 20*time.Second)
 	defer cancel()
@@ -585,10 +597,22 @@ func execC17E2E(c C17E2ECase) *Failure {
 			return Failf("C17/unexpected-retry", "kind=1 retry cfg=%+v: %d GETs of the event stream, %d were refused", v, gets, c.StreamFail)
 		}
 	}
+	mu.Lock()
+	recordWaits = true
+	mu.Unlock()
 	callErr := doCall(cl, c.Call)
 	mu.Lock()
 	got := attempt
+	waitsSeen := append([]time.Duration(nil), e2eWaits...)
 	mu.Unlock()
+	if c.Retry {
+		// the k-th wait is InitialBackoff x Factor^(k-1) capped at MaxBackoff - whatever the failed answer says
+		for k, d := range waitsSeen {
+			if want := expectedWait(*mcp.VerifClientRetryConfig(cl), k+1); d != want {
+				return Failf("C17/wait-value", "kind=%d retry cfg=%+v script=%v Retry-After=%q: wait %d before attempt %d is %v, the configuration gives %v", c.Kind, *mcp.VerifClientRetryConfig(cl), c.Script, c.RetryAfter, k+1, k+2, d, want)
+			}
+		}
+	}
 	where := fmt.Sprintf("kind=%d retry=%v(simple=%v) cfg=%+v script=%v body=%q: peer saw %d attempts of %s, call error: %v", c.Kind, c.Retry, c.Simple, v, c.Script, c.Body, got, method, callErr)
 	if !c.Retry {
 		if got != 1 {
@@ -635,10 +659,11 @@ func execC17E2E(c C17E2ECase) *Failure {
 }
 
 type statusBody struct {
-	f        *FakeServer
-	body     string
-	failGets int
-	gets     atomic.Int64
+	f          *FakeServer
+	body       string
+	failGets   int
+	gets       atomic.Int64
+	retryAfter string
 }
 
 func (s *statusBody) ServeHTTP(w http.ResponseWriter, r *http.Request) {
@@ -648,19 +673,23 @@ func (s *statusBody) ServeHTTP(w http.ResponseWriter, r *http.Request) {
 			return
 		}
 	}
-	s.f.ServeHTTP(&bodyRewriter{ResponseWriter: w, body: s.body}, r)
+	s.f.ServeHTTP(&bodyRewriter{ResponseWriter: w, body: s.body, retryAfter: s.retryAfter}, r)
 }
 
 // bodyRewriter replaces the body of error statuses by a scripted text.
 type bodyRewriter struct {
 	http.ResponseWriter
-	body   string
-	status int
-	done   bool
+	body       string
+	status     int
+	done       bool
+	retryAfter string
 }
 
 func (b *bodyRewriter) WriteHeader(code int) {
 	b.status = code
+	if code >= 400 && b.retryAfter != "" {
+		b.Header().Set("Retry-After", b.retryAfter)
+	}
 	b.ResponseWriter.WriteHeader(code)
 }
 
